@@ -39,10 +39,11 @@ if TYPE_CHECKING:
         def rmtree(self, path: str, /) -> object: ...
 
 
+# Taken with ``with lock:``, never with acquire() / try / finally: an
+# asynchronous exception (KeyboardInterrupt, a failed allocation) that
+# arrives after acquire() has returned and before the ``try`` block is
+# entered would leave the lock held for good.
 lock = RLock()
-acquire_lock = lock.acquire
-release_lock = lock.release
-del lock
 
 log = logging.getLogger('chameleon.loader')
 
@@ -192,8 +193,7 @@ class ModuleLoader:
             return None
 
     def build(self, source: str, filename: str) -> dict[str, Any]:
-        acquire_lock()
-        try:
+        with lock:
             base, ext = os.path.splitext(filename)
             name = os.path.join(self.path, base + ".py")
 
@@ -219,12 +219,9 @@ class ModuleLoader:
             py_compile.compile(name)
 
             return self._load(base, name)
-        finally:
-            release_lock()
 
     def _load(self, base: str, filename: str) -> dict[str, Any]:
-        acquire_lock()
-        try:
+        with lock:
             module = sys.modules.get(base)
             if module is None:
                 loader = SourceFileLoader(base, filename)
@@ -234,7 +231,5 @@ class ModuleLoader:
                 module = module_from_spec(spec)
                 loader.exec_module(module)
                 sys.modules[base] = module
-        finally:
-            release_lock()
 
         return module.__dict__
